@@ -122,15 +122,47 @@ func checkFormat(c *Ctx, meaning bool) error {
 		emu.Unlock()
 	}
 	var cli int64
+	traceDir := filepath.Join(c.Scratch, "fmttraces")
+	os.MkdirAll(traceDir, 0o755)
+	traced := 12
+	if c.Tier == "thorough" {
+		traced = 60
+	}
 	parallel(nb, 16, func(b int) {
 		lo, hi := b*batch, (b+1)*batch
 		if hi > len(normal) {
 			hi = len(normal)
 		}
-		if e := fmtBatch(c, pool, fmt.Sprintf("fb%d", b), normal[lo:hi], meaning, &cli); e != nil {
+		tf := ""
+		if b%(nb/traced+1) == 0 {
+			tf = filepath.Join(traceDir, fmt.Sprintf("b%d.ndjson", b))
+		}
+		if e := fmtBatch(c, pool, fmt.Sprintf("fb%d", b), normal[lo:hi], meaning, &cli, tf); e != nil {
 			setErr(e)
 		}
 	})
+	// Direction B: the formatter's recorded indentation bookkeeping and the parser's recorded
+	// line kinds for the traced batches
+	pft := newParseFmtTrace()
+	tfiles, _ := filepath.Glob(filepath.Join(traceDir, "*.ndjson"))
+	for _, f := range tfiles {
+		if err := pft.add(f); err != nil {
+			return err
+		}
+	}
+	os.RemoveAll(traceDir)
+	if pft.nfmt > 0 {
+		pres, err := pft.validate(c)
+		if err != nil {
+			return err
+		}
+		if !pres.Accepted {
+			c.violation("trace", map[string]any{"why": "a recorded format run is not a behaviour of the specification (indentation bookkeeping of Format, line kinds of Classify)",
+				"bad_kind_record": pres.BadKind, "bad_fmt_event": pres.BadFmt})
+		}
+		c.Cov["recorded_fmt_events_validated"] = pres.TotalF
+		c.Cov["recorded_line_kinds_validated"] = pres.TotalK
+	}
 	// every k-th normal case additionally through the single-file command
 	step := len(normal)/150 + 1
 	var singles []FmtCase
@@ -206,7 +238,7 @@ func generateObs(pool *inprocPool, c *Ctx, root, text string) (asmObs, error) {
 }
 
 // fmtBatch: n files in one tree; --check --all, --all, --all, --check --all.
-func fmtBatch(c *Ctx, pool *inprocPool, name string, cs []FmtCase, meaning bool, cli *int64) error {
+func fmtBatch(c *Ctx, pool *inprocPool, name string, cs []FmtCase, meaning bool, cli *int64, traceFile string) error {
 	root, err := c.newSandbox(name)
 	if err != nil {
 		return err
@@ -268,7 +300,11 @@ func fmtBatch(c *Ctx, pool *inprocPool, name string, cs []FmtCase, meaning bool,
 		c.violation("format", map[string]any{"why": "format --check wrote to the tree", "diff": d})
 	}
 	// 2. format
-	r2 := c.runCLI(root, "", "-d", root, "regex", "format", "--all")
+	var tenv []string
+	if traceFile != "" {
+		tenv = []string{"CRS_VERIF_TRACE=" + traceFile}
+	}
+	r2 := c.runCLIEnv(root, "", tenv, 60*time.Second, "-d", root, "regex", "format", "--all")
 	atomic.AddInt64(cli, 1)
 	if r2.Exit != 0 {
 		c.violation("format", map[string]any{"why": fmt.Sprintf("format --all failed with exit %d on files the spec formats", r2.Exit), "stderr": lastLine(r2.Stderr)})
